@@ -234,13 +234,14 @@ def check_file(ctx, V, C, spec, deep=True):
             'first': spec['first'], 'refl': mj['refl'], 'bump': mj['bump'], 'fmt': mj['fmt'], 'low_fmt': mj['low_fmt'],
             'depth': spec['depth'] if tminor >= 2 else 1, 'mip_count': len(levels)}
     if tminor >= 3:
-        want['res'] = [{'id': r['id'], 'flags': r['flags'], 'isbytes': r['isbytes'], 'ival': r['ival'], 'data': r['data']}
-                       for r in spec['res'] if ((r['flags'] & 2) == 0) == r['isbytes']]
-        got_res = [r for r in iv['res'] if any(r['id'] == s['id'] and ((s['flags'] & 2) == 0) == s['isbytes'] for s in spec['res'])]
-        if got_res != want.pop('res'):
-            W(ctx, 'meta', f'resources not reproduced: {got_res} vs {spec["res"]}', inp); ok = False
-        if len(iv['res']) != len(spec['res']) or [r['id'] for r in iv['res']] != [r['id'] for r in spec['res']]:
-            W(ctx, 'meta', 'resource ids / order not reproduced', inp); ok = False
+        # every resource keeps its id, position, kind and content; bit 0x02 of the flags is the storage kind
+        # (rewritten by save), all other flag bits are data
+        def norm(rs):
+            return [(r['id'], r['flags'] & ~2, r['isbytes'], r['ival'], r['data']) for r in rs]
+        if norm(iv['res']) != norm(spec['res']):
+            W(ctx, 'meta', f'resources not reproduced: read {str(iv["res"])[:200]} saved {str(spec["res"])[:200]}', inp); ok = False
+        if any(((r['flags'] & 2) == 0) != r['isbytes'] for r in iv['res']):
+            W(ctx, 'meta', 'a resource read back has a storage-kind flag that contradicts its data', inp); ok = False
         if iv['sheet'] != mj['sheet']:
             W(ctx, 'meta', f'particle sheet not reproduced: {str(iv["sheet"])[:200]} vs {str(mj["sheet"])[:200]}', inp); ok = False
     for k, x in want.items():
